@@ -1254,7 +1254,7 @@ class IH5StoreEngine:
         def emit(op):
             ops.append(op)
 
-        def do_open(i, mode=None, by=None):
+        def do_open(i, mode=None, by=None, as_=None):
             s = st[i]
             if mode is None:
                 if not s["exists"]:
@@ -1268,6 +1268,8 @@ class IH5StoreEngine:
                 op["as"] = g.choice(["ih5", "mf"])
             if g.random() < 0.12:
                 op["manifest_kw"] = True
+            if as_:
+                op["as"] = as_
             emit(op)
             # shadow update (expected semantics)
             if op["by"] == "list":
@@ -1375,6 +1377,13 @@ class IH5StoreEngine:
                     if g.random() < 0.2:
                         g.choice([do_commit, do_create_patch, do_discard])(i)  # often a refused call
                         if st[i]["writable"]:
+                            do_commit(i)
+                    if mix and g.random() < 0.25:
+                        # merge through the other record class (IH5Record <-> IH5MFRecord)
+                        other = "ih5" if cfg["classes"][str(i)] == "mf" else "mf"
+                        do_close(i, commit=True)
+                        do_open(i, mode=g.choice(["r", "r", "r+"]), by="name", as_=other)
+                        if st[i]["writable"] and g.random() < 0.7:
                             do_commit(i)
                     if merge_targets:
                         t = merge_targets.pop(0) if g.random() < 0.85 else 4
